@@ -131,11 +131,15 @@ class XhTape(BaseTape):
         v = self.int(0, n - 1)
         with NoTracing():
             self.vals.pop()
-        r = n - 1
-        for j in range(n - 1):
-            if v == j:
-                r = j
-                break
+        # concretise by bisection: log2(n) solver-decided branches instead of n
+        lo, hi = 0, n - 1
+        while lo < hi:
+            mid = (lo + hi) // 2
+            if v <= mid:
+                hi = mid
+            else:
+                lo = mid + 1
+        r = lo
         with NoTracing():
             self.vals.append(['choice', r])
         return r
